@@ -54,9 +54,10 @@ fn run<F: std::future::Future>(f: F) -> F::Output {
 /// the key exactly once (no false negative, no duplicate), newest first, and `len()` counts the live blobs.
 pub(crate) fn body_hier<S: Src>(s: &mut S, group_size: usize, ops: usize, nkeys: u8) {
     let mut h: HierarchicalFilters<u8, ToyFilter, ToyBlob> = HierarchicalFilters::new(group_size, 1);
-    let mut live: [bool; 8] = [false; 8];      // by blob id
-    let mut keyof: [u8; 8] = [0; 8];
+    let mut live: [bool; 16] = [false; 16];    // by blob id (at most one blob per operation; ops <= 16)
+    let mut keyof: [u8; 16] = [0; 16];
     let mut next_id: u8 = 0;
+    vassert!(ops <= 16, "bound of the harness arrays");
     let mut i = 0;
     while i < ops {
         let is_push = s.bool();
@@ -74,21 +75,21 @@ pub(crate) fn body_hier<S: Src>(s: &mut S, group_size: usize, ops: usize, nkeys:
                     vassert!(live[b.id as usize], "pop returned a blob that is not live");
                     // it must be the newest live blob
                     let mut j = b.id as usize + 1;
-                    while j < 8 { vassert!(!live[j], "pop skipped a newer live blob"); j += 1; }
+                    while j < 16 { vassert!(!live[j], "pop skipped a newer live blob"); j += 1; }
                     live[b.id as usize] = false;
                 }
-                None => { let mut j = 0; while j < 8 { vassert!(!live[j], "pop returned None with live blobs"); j += 1; } }
+                None => { let mut j = 0; while j < 16 { vassert!(!live[j], "pop returned None with live blobs"); j += 1; } }
             }
         }
         i += 1;
     }
     // accounting (C15)
     let mut n_live = 0; let mut j = 0;
-    while j < 8 { if live[j] { n_live += 1; } j += 1; }
+    while j < 16 { if live[j] { n_live += 1; } j += 1; }
     vassert!(h.len() == n_live, "len() != number of live blobs");
     // queries (C10 / C04 / C01)
     let q = s.choose(nkeys);
-    let mut seen: [u8; 8] = [0; 8];
+    let mut seen: [u8; 16] = [0; 16];
     let mut last: i32 = 100;
     for (_, leaf) in h.iter_possible_childs_rev(&q) {
         let id = leaf.data.id as usize;
@@ -98,7 +99,7 @@ pub(crate) fn body_hier<S: Src>(s: &mut S, group_size: usize, ops: usize, nkeys:
         last = id as i32;
     }
     let mut j = 0;
-    while j < 8 {
+    while j < 16 {
         vassert!(seen[j] <= 1, "a blob was yielded twice");
         if live[j] && keyof[j] == q { vassert!(seen[j] == 1, "a live blob holding the key was pruned (false negative)"); }
         j += 1;
